@@ -161,7 +161,7 @@ type jsonServer struct{ body []byte }
 
 func (s jsonServer) RoundTrip(q *http.Request) (*http.Response, error) {
 	if strings.HasSuffix(q.URL.Path, "api/v1/log") {
-		return &http.Response{StatusCode: 200, Body: io.NopCloser(bytes.NewReader(s.body)), Header: http.Header{}, Request: q}, nil
+		return &http.Response{StatusCode: 200, Body: io.NopCloser(bytes.NewReader(s.body)), Header: http.Header{}, ContentLength: int64(len(s.body)), Request: q}, nil
 	}
 	return &http.Response{StatusCode: 404, Body: io.NopCloser(strings.NewReader("")), Header: http.Header{}, Request: q}, nil
 }
